@@ -19,10 +19,10 @@ MAXSIZE = 2 ** 63 - 1
 
 TYPES = {
     "PositionStats": {"scale": "real", "AB": "real", "AD": "real", "A2": "real"},
-    "Constraint": {"$ghost_lastpos": True, "left": "ref:Variable", "right": "ref:Variable", "gap": "real", "equality": "bool", "active": "bool",
+    "Constraint": {"$ghost_lastpos": True, "$ghost_rolepos": {"cin": "$ipos", "cout": "$opos"}, "left": "ref:Variable", "right": "ref:Variable", "gap": "real", "equality": "bool", "active": "bool",
                    "unsatisfiable": "bool", "lm": "real?"},
-    "Variable": {"desiredPosition": "real", "weight": "real", "scale": "real", "offset": "real", "node": "ref:Node",
-                 "block": "ref:Block", "cIn": "slist:ref:Constraint@adj", "cOut": "slist:ref:Constraint@adj"},
+    "Variable": {"$ghost_rolepos": {"vars": "$vpos"}, "desiredPosition": "real", "weight": "real", "scale": "real", "offset": "real", "node": "ref:Node",
+                 "block": "ref:Block", "cIn": "slist:ref:Constraint@cin", "cOut": "slist:ref:Constraint@cout"},
     "Block": {"vars": "slist:ref:Variable@vars", "ps": "ref:PositionStats", "posn": "real", "blockInd": "int"},
     "Blocks": {"vs": "slist:ref:Variable", "_list": "slist:ref:Block"},
     "Solver": {"vs": "slist:ref:Variable", "cs": "slist:ref:Constraint", "inactive": "slist:ref:Constraint",
@@ -90,7 +90,7 @@ def inv_list(E, P, ctx, bs):
     el = E.l_get(P, lst, i)
     return [(P, Bool(_forall([i], z3.Implies(z3.And(0 <= i, i < E.l_len(P, lst)),
                                                z3.And(el.t != NULL, rd(E, P, el, "Block", "blockInd").t == i)),
-                               patterns=[el.t])))]
+                               el.t)))]
 
 
 SPECFUNS = {"spos": spos, "cslack": slack, "tight": tight, "inv_blk": inv_blk, "inv_blk_at": inv_blk_at, "inv_list": inv_list}
@@ -109,6 +109,8 @@ CONTRACTS = {
             ("AD", "self.AD * v.scale == old(self.AD) * v.scale + v.weight * self.scale * v.desiredPosition"),
             ("A2", "self.A2 * v.scale * v.scale == old(self.A2) * v.scale * v.scale + v.weight * self.scale * self.scale"),
             ("A2_grows", "implies(v.weight > 0 and self.scale != 0, self.A2 > old(self.A2))"),
+            ("same_scale", "implies(self.scale == v.scale, self.AD == old(self.AD) + v.weight * v.desiredPosition and self.A2 == old(self.A2) + v.weight)"),
+            ("zero_offset", "implies(v.offset == 0, self.AB == old(self.AB))"),
             ("frame", "forall(lambda o: implies(o != self, o.AB == old(o.AB) and o.AD == old(o.AD) and o.A2 == old(o.A2)), 'ref:PositionStats')"),
         ],
     },
@@ -174,7 +176,8 @@ def _wf_c(E, P, c):
     out = [c.t != NULL, l.t != NULL, r.t != NULL, z3.Not(rd(E, P, c, "Constraint", "equality").t)]
     for v in (l, r):
         b = rd(E, P, v, "Variable", "block")
-        out += [rd(E, P, v, "Variable", "scale").t > 0, b.t != NULL, rd(E, P, b, "Block", "ps").t != NULL]
+        out += [rd(E, P, v, "Variable", "scale").t > 0, b.t != NULL, rd(E, P, b, "Block", "ps").t != NULL,
+                rd(E, P, b, "Block", "vars").t != NULL]
     return z3.And(*out)
 
 
@@ -292,7 +295,7 @@ def feasible(E, P, ctx, s):
 
 def _has_block(E, P, v):
     b = rd(E, P, v, "Variable", "block")
-    return z3.And(b.t != NULL, rd(E, P, b, "Block", "ps").t != NULL)
+    return z3.And(b.t != NULL, rd(E, P, b, "Block", "ps").t != NULL, rd(E, P, b, "Block", "vars").t != NULL)
 
 
 def _in_vs(E, P, vs, v):
@@ -391,7 +394,7 @@ SPECFUNS.update({"all_wf": all_wf, "nonnull": nonnull, "inv_cs_except": inv_cs_e
 
 # heap fields the block-restructuring routines may write (everything except: Solver fields, Constraint.left/right/gap/
 # equality/unsatisfiable, Variable.scale/weight/desiredPosition/node/cIn/cOut)
-RESTRUCT = ["Constraint.active", "Constraint.lm", "Constraint.lm$set", "Variable.offset", "Variable.block",
+RESTRUCT = ["Variable.$vpos", "Constraint.active", "Constraint.lm", "Constraint.lm$set", "Variable.offset", "Variable.block",
             "Block.vars", "Block.ps", "Block.posn", "Block.blockInd", "PositionStats.scale", "PositionStats.AB",
             "PositionStats.AD", "PositionStats.A2", "Blocks._list",
             "list.len.ref~Variable@vars", "list.elems.ref~Variable@vars", "list.len.ref~Block", "list.elems.ref~Block"]
@@ -402,6 +405,8 @@ _SOLVER_OK = ["self.cs is not None and self.inactive is not None and self.bs is 
               "nonnull(self.cs) and nonnull(self.inactive)"]
 _SOLVER_PRE = ["self.cs is not None and self.inactive is not None and self.cs is not self.inactive", _SOLVER_OK[1]]
 
+_BLOCKLIST_FRAME = {"requires": [], "modifies": ["Blocks._list", "list.len.ref~Block", "list.elems.ref~Block", "Block.blockInd"],
+                    "allocates": ["list"], "returns": "none", "ensures": []}
 CONTRACTS.update({
     # ---- assumed (tier T2, driver c05): the recursive split machinery ------------------------------------------------
     "vpsc.Blocks.split": {
@@ -422,19 +427,21 @@ CONTRACTS.update({
             "forall(lambda q, j: implies(q is not inactive and old(alloc(q)), q[j] is old(q[j])), 'slist:ref:Constraint', 'int')",
         ],
     },
+    # VERIFIED (the choice of direction, the distance handed over, the removal of the emptied block); the loop that moves
+    # the variables is Block.mergeAcross, used here through its contract
     "vpsc.Blocks.merge": {
-        "props": ["C05", "C01"], "mode": "assume", "why": "verified separately when Blocks.merge is under contract; assumed at this call site",
+        "props": ["C05", "C01"], "heap": True,
+        "params": {"self": "ref:Blocks", "c": "ref:Constraint"},
         "requires": _G + ["c is not None and not c.active", "wf_one(c)", "c.left.block is not c.right.block"],
-        "modifies": RESTRUCT,
-        "ensures": _G + ["c.active", "blocks_kept()",
-                         "forall(lambda d: implies(d is not c, d.active == old(d.active)), 'ref:Constraint')"],
+        "modifies": RESTRUCT, "returns": "none",
+        "ensures": [("s1_active_were_active", "forall(lambda d: implies(isa(d, 'Constraint') and d.active and d is not c, old(d.active) and old(inv_blk_at(d))), 'ref:Constraint')"),
+                    ("s2_same_block", "forall(lambda d: implies(isa(d, 'Constraint') and d.active and d is not c, d.left.block is d.right.block), 'ref:Constraint')"),
+                    ("s3_tight", "forall(lambda d: implies(isa(d, 'Constraint') and d.active and d is not c, tight(d)), 'ref:Constraint')"),
+                    ("s4_each", "forall(lambda d: inv_blk_at(d), 'ref:Constraint')"),
+                    ("inv_blk", "inv_blk()"), ("activated", "c.active"), ("blocks_kept", "blocks_kept()"),
+                    ("others_keep_their_state", "forall(lambda d: implies(d is not c, d.active == old(d.active)), 'ref:Constraint')"),
+                    ("now_tight", "tight(c) and c.left.block is c.right.block")],
     },
-    "vpsc.Blocks.insert": {"props": ["C05", "C01"], "mode": "assume", "why": "list bookkeeping only",
-                           "requires": [], "modifies": ["Blocks._list", "list.len.ref~Block", "list.elems.ref~Block", "Block.blockInd"],
-                           "ensures": []},
-    "vpsc.Blocks.remove": {"props": ["C05", "C01"], "mode": "assume", "why": "list bookkeeping only",
-                           "requires": [], "modifies": ["Blocks._list", "list.len.ref~Block", "list.elems.ref~Block", "Block.blockInd"],
-                           "ensures": []},
     "vpsc.Block.isActiveDirectedPathBetween": {
         "props": ["C05", "C01"], "mode": "assume", "why": "recursion over the constraint graph",
         "requires": [], "modifies": [], "returns": "bool", "ensures": []},
@@ -500,6 +507,130 @@ CONTRACTS.update({
 })
 
 
+# ------------------------------------------------------------------------------------------- Block.mergeAcross
+def vpos(E, P, ctx, v):
+    """ghost: the index at which variable v was appended to the `vars` list of a block last (engine, list role `vars`)"""
+    return [(P, Num(z3.Select(E.heap_array(P, "Variable.$vpos", IntS), v.t), True))]
+
+
+SPECFUNS["vpos"] = vpos
+SPECFUNS["opos"] = lambda E, P, ctx, c: [(P, Num(z3.Select(E.heap_array(P, "Constraint.$opos", IntS), c.t), True))]
+SPECFUNS["ipos"] = lambda E, P, ctx, c: [(P, Num(z3.Select(E.heap_array(P, "Constraint.$ipos", IntS), c.t), True))]
+
+_MA_ENS = [("activated", "c.active"),
+           ("others_keep_their_state", "forall(lambda d: implies(d is not c, d.active == old(d.active)), 'ref:Constraint')"),
+           # every variable that lived in b now lives in self, shifted by dist; nothing else moves
+           ("moved", "forall(lambda v: implies(old(v.block) is b, v.block is self and v.offset == old(v.offset) + dist), 'ref:Variable')"),
+           ("rest_untouched", "forall(lambda v: implies(old(v.block) is not b, v.block is old(v.block) and v.offset == old(v.offset)), 'ref:Variable')")]
+_MA_MOD = ["Constraint.active", "Variable.offset", "Variable.block", "Variable.$vpos", "Block.posn", "PositionStats.AB", "PositionStats.AD",
+           "PositionStats.A2", "list.len.ref~Variable@vars", "list.elems.ref~Variable@vars"]
+# what Blocks.merge uses at its call site: the postcondition proved below, under the weaker precondition merge can establish
+# itself.  The representation invariant of the two blocks (R2-R4 below) is NOT established by merge: its maintenance by
+# Blocks.__init__ and the split routines is not proved (bounded only, driver c05) - recorded in the evidence.
+MERGEACROSS_SUMMARY = {
+    "requires": ["self is not None and b is not None and self is not b and c is not None"],
+    "modifies": _MA_MOD, "returns": "none", "ensures": [e for _, e in _MA_ENS],
+}
+CONTRACTS["vpsc.Blocks.merge"]["callee_contracts"] = {"vpsc.Block.mergeAcross": MERGEACROSS_SUMMARY}
+_MOVED_INV = ("forall(lambda v: implies(old(v.block) is b, (old(vpos(v)) < _km and v.block is self and v.offset == old(v.offset) + dist) "
+              "or (old(vpos(v)) >= _km and v.block is b and v.offset == old(v.offset))), 'ref:Variable')")
+CONTRACTS["vpsc.Block.mergeAcross"] = {
+    "props": ["C05", "C01"], "heap": True,
+    "params": {"self": "ref:Block", "b": "ref:Block", "c": "ref:Constraint", "dist": "real"},
+    "requires": [
+        ("R1_two_blocks", "self is not None and b is not None and self is not b and c is not None and self.ps is not None and b.ps is not None "
+                          "and self.vars is not None and b.vars is not None and self.vars is not b.vars and self.ps is not b.ps"),
+        # representation invariant of b: its list holds exactly the variables whose block it is, each once (ghost position)
+        ("R2_vars_point_back", "forall(lambda j: implies(0 <= j < len(b.vars), b.vars[j] is not None and b.vars[j].block is b and vpos(b.vars[j]) == j "
+                               "and b.vars[j].weight > 0 and b.vars[j].scale > 0))"),
+        ("R3_members_are_listed", "forall(lambda v: implies(v.block is b, 0 <= vpos(v) < len(b.vars) and b.vars[vpos(v)] is v), 'ref:Variable')"),
+        ("R4_stats", "self.ps.scale != 0 and self.ps.A2 > 0"),
+    ],
+    "modifies": _MA_MOD, "returns": "none",
+    "loops": {"for i in range(len(b.vars))": {
+        "label": "_move", "index": "_km", "locals": {"i": "int", "v": "ref:Variable"},
+        "modifies": [m for m in _MA_MOD if m != "Constraint.active"],
+        "inv": [("b_list_kept", "len(b.vars) == old(len(b.vars)) and b.vars is old(b.vars) and forall(lambda j: implies(0 <= j < len(b.vars), b.vars[j] is old(b.vars[j])))"),
+                ("moved_prefix", _MOVED_INV),
+                ("rest_untouched", _MA_ENS[3][1]),
+                ("stats", "self.ps is old(self.ps) and self.vars is old(self.vars) and self.ps.scale == old(self.ps.scale) and self.ps.A2 > 0")]}},
+    "ensures": _MA_ENS,
+}
+
+
+# ------------------------------------------------------------------------------------------- Blocks.insert / Blocks.remove
+# VERIFIED under the list invariant Inv-list (_list[i].blockInd == i).  satisfy and merge use them through the frame-only
+# summary _BLOCKLIST_FRAME: Inv-list is not carried through satisfy (its maintenance by Blocks.__init__ / Blocks.split is
+# not proved), so their preconditions are not established at those call sites - recorded in the evidence.
+CONTRACTS["vpsc.Blocks.insert"] = {
+    "props": ["C05", "C01"], "heap": True,
+    "params": {"self": "ref:Blocks", "b": "ref:Block"},
+    "requires": ["self._list is not None and b is not None", "inv_list(self)",
+                 ("not_yet_listed", "forall(lambda i: implies(0 <= i < len(self._list), self._list[i] is not b))")],
+    "modifies": ["list.len.ref~Block", "list.elems.ref~Block", "Block.blockInd"], "returns": "none",
+    "ensures": [("inv_list", "inv_list(self)"),
+                ("appended", "self._list is old(self._list) and len(self._list) == old(len(self._list)) + 1 and self._list[len(self._list) - 1] is b"),
+                ("prefix_kept", "forall(lambda i: implies(0 <= i < old(len(self._list)), self._list[i] is old(self._list[i])))"),
+                ("index_of_b", "b.blockInd == len(self._list) - 1")],
+}
+CONTRACTS["vpsc.Blocks.remove"] = {
+    "props": ["C05", "C01"], "heap": True,
+    "params": {"self": "ref:Blocks", "b": "ref:Block"},
+    "requires": ["self._list is not None and b is not None", "inv_list(self)",
+                 ("b_is_listed", "0 <= b.blockInd < len(self._list) and self._list[b.blockInd] is b")],
+    "modifies": ["Blocks._list", "list.len.ref~Block", "list.elems.ref~Block", "Block.blockInd"], "allocates": ["list"], "returns": "none",
+    "ensures": [("inv_list", "inv_list(self)"),
+                ("one_fewer", "self._list is not None and len(self._list) == old(len(self._list)) - 1"),
+                ("b_is_gone", "forall(lambda i: implies(0 <= i < len(self._list), self._list[i] is not b))"),
+                # every other block is still listed, at the index it now carries
+                ("others_stay", "forall(lambda i: implies(0 <= i < old(len(self._list)) and old(self._list[i]) is not b, "
+                                "0 <= old(self._list[i]).blockInd < len(self._list) and self._list[old(self._list[i]).blockInd] is old(self._list[i])))")],
+}
+for _k in ("vpsc.Solver.satisfy", "vpsc.Blocks.merge"):
+    CONTRACTS[_k].setdefault("callee_contracts", {}).update({"vpsc.Blocks.insert": _BLOCKLIST_FRAME, "vpsc.Blocks.remove": _BLOCKLIST_FRAME})
+
+
+# ------------------------------------------------------------------------------------------- Block.__init__ / addVariable
+CONTRACTS["vpsc.Block.addVariable"] = {
+    "props": ["C05", "C02"], "heap": True,
+    "params": {"self": "ref:Block", "v": "ref:Variable"},
+    "requires": ["self.vars is not None and self.ps is not None and v is not None", "v.scale != 0 and self.ps.scale != 0 and v.weight > 0 and self.ps.A2 >= 0"],
+    "modifies": ["Variable.block", "Variable.$vpos", "Block.posn", "PositionStats.AB", "PositionStats.AD", "PositionStats.A2",
+                 "list.len.ref~Variable@vars", "list.elems.ref~Variable@vars"],
+    "returns": "none",
+    "ensures": [("joins_the_block", "v.block is self and len(self.vars) == old(len(self.vars)) + 1 and self.vars[len(self.vars) - 1] is v and vpos(v) == len(self.vars) - 1"),
+                ("earlier_members_kept", "forall(lambda j: implies(0 <= j < old(len(self.vars)), self.vars[j] is old(self.vars[j])))"),
+                ("other_variables_keep_their_block", "forall(lambda u: implies(u is not v, u.block is old(u.block)), 'ref:Variable')"),
+                # the block sits at the stationary point of its weighted squared displacement
+                ("posn_is_stationary", "self.posn * self.ps.A2 == self.ps.AD - self.ps.AB"),
+                ("A2_positive", "self.ps.A2 > 0"),
+                ("same_scale", "implies(self.ps.scale == v.scale, self.ps.AD == old(self.ps.AD) + v.weight * v.desiredPosition and self.ps.A2 == old(self.ps.A2) + v.weight)"),
+                ("zero_offset", "implies(v.offset == 0, self.ps.AB == old(self.ps.AB))"),
+                ("stats_object_kept", "self.ps is old(self.ps) and self.vars is old(self.vars) and self.ps.scale == old(self.ps.scale)"),
+                # frame: other member lists, other variables' ghost positions, other blocks' statistics and positions
+                ("frame_other_lists", "forall(lambda q: implies(q is not self.vars and old(alloc(q)), len(q) == old(len(q))), 'slist:ref:Variable@vars')"),
+                ("frame_other_lists_elems", "forall(lambda q, j: implies(q is not self.vars and old(alloc(q)), q[j] is old(q[j])), 'slist:ref:Variable@vars', 'int')"),
+                ("frame_positions", "forall(lambda u: implies(u is not v, vpos(u) == old(vpos(u))), 'ref:Variable')"),
+                ("frame_stats", "forall(lambda o: implies(o is not self.ps, o.AB == old(o.AB) and o.AD == old(o.AD) and o.A2 == old(o.A2)), 'ref:PositionStats')"),
+                ("frame_posn", "forall(lambda o: implies(o is not self, o.posn == old(o.posn)), 'ref:Block')")],
+}
+CONTRACTS["vpsc.Block.__init__"] = {
+    "props": ["C05", "C02"], "heap": True,
+    "params": {"self": "ref:Block", "v": "ref:Variable"},
+    "requires": ["v is not None and v.scale > 0 and v.weight > 0"],
+    "modifies": ["Block.vars", "Block.ps", "Block.posn", "Variable.offset", "Variable.block", "Variable.$vpos", "PositionStats.scale", "PositionStats.AB",
+                 "PositionStats.AD", "PositionStats.A2", "list.len.ref~Variable@vars", "list.elems.ref~Variable@vars"],
+    "allocates": ["PositionStats", "list"], "returns": "none",
+    "ensures": [("one_member", "self.vars is not None and fresh(self.vars) and len(self.vars) == 1 and self.vars[0] is v and v.block is self and vpos(v) == 0"),
+                ("offset_zero", "v.offset == 0"),
+                ("own_stats", "self.ps is not None and fresh(self.ps) and self.ps.scale == v.scale and self.ps.A2 > 0"),
+                # a one-variable block sits at its variable's desired position (times the unit ratio of the scales)
+                ("at_desired_position", "self.posn == v.desiredPosition"),
+                ("reported_position", "spos(v) == v.scale * v.desiredPosition"),
+                ("other_variables_untouched", "forall(lambda u: implies(u is not v and old(alloc(u)), u.block is old(u.block) and u.offset == old(u.offset)), 'ref:Variable')")],
+}
+
+
 def cost_of_state(E, P, ctx):
     """the weighted squared displacement as a function of the heap fields it reads (kept uninterpreted: the SUM over the
     block partition is bounded-only, driver c05); used to state 'the reported cost is the cost of the reported positions'"""
@@ -546,21 +677,53 @@ CONTRACTS["vpsc.Solver.satisfy"]["allocates"] = ["Block", "PositionStats", "list
 CONTRACTS["vpsc.Solver.satisfy"]["returns"] = "none"
 
 
-# Solver.__init__: assumed (simple loops; bounded only for now).  It hands the solver the caller's lists, copies cs into
-# `inactive` (same positions) and de-activates every constraint of cs.
+# Solver.__init__: VERIFIED (three loops).  It hands the solver the caller's lists, gives every variable of vs fresh
+# adjacency lists, copies cs into `inactive` (same positions) and de-activates every constraint of cs.  The ends of every
+# constraint must be elements of vs (ghost inverse index Variable.$vidx): otherwise `c.left.cOut` may not exist.
+_ADJ_OK = "forall(lambda i: implies(0 <= i < len(vs), vs[i] is not None and vs[i].cIn is not None and vs[i].cOut is not None))"
+_CS_ENDS = ("forall(lambda j: implies(0 <= j < len(cs), cs[j] is not None and cs[j].left is not None and cs[j].right is not None "
+            "and in_vs(vs, cs[j].left) and in_vs(vs, cs[j].right)))")
+# the constraint sits in the outgoing list of its left end and in the incoming list of its right end (ghost positions)
+_LINKED = ("forall(lambda j: implies(0 <= j < %s, 0 <= opos(cs[j]) < len(cs[j].left.cOut) and cs[j].left.cOut[opos(cs[j])] is cs[j] "
+           "and 0 <= ipos(cs[j]) < len(cs[j].right.cIn) and cs[j].right.cIn[ipos(cs[j])] is cs[j]))")
+_CS_SAME = "len(cs) == old(len(cs)) and forall(lambda j: implies(0 <= j < len(cs), cs[j] is old(cs[j])))"
+_VS_SAME = "len(vs) == old(len(vs)) and forall(lambda i: implies(0 <= i < len(vs), vs[i] is old(vs[i])))"
 CONTRACTS["vpsc.Solver.__init__"] = {
-    "props": ["C05", "C01"], "mode": "assume", "why": "constructor loops over vs and cs (bounded only)",
+    "props": ["C05", "C01"], "heap": True,
+    "params": {"self": "ref:Solver", "vs": "slist:ref:Variable", "cs": "slist:ref:Constraint"},
     "requires": ["vs is not None and cs is not None", "nonnull(cs)",
-                 "forall(lambda j: implies(0 <= j < len(cs), lastpos(cs[j]) == j))"],
+                 "forall(lambda j: implies(0 <= j < len(cs), lastpos(cs[j]) == j))",
+                 ("vs_nonnull", "forall(lambda i: implies(0 <= i < len(vs), vs[i] is not None))"),
+                 ("constraint_ends_are_variables_of_vs", _CS_ENDS)],
     "modifies": ["Solver.vs", "Solver.cs", "Solver.inactive", "Solver.bs", "Constraint.active", "Variable.cIn", "Variable.cOut",
-                 "list.len.ref~Constraint", "list.elems.ref~Constraint", "list.len.ref~Constraint@adj", "list.elems.ref~Constraint@adj"],
+                 "list.len.ref~Constraint", "list.elems.ref~Constraint", "list.len.ref~Constraint@cin", "list.elems.ref~Constraint@cin", "list.len.ref~Constraint@cout", "list.elems.ref~Constraint@cout", "Constraint.$ipos", "Constraint.$opos"],
     "allocates": ["list"], "returns": "none",
-    "ensures": ["self.vs is vs and self.cs is cs and self.bs is None",
-                "self.inactive is not None and self.inactive is not cs and fresh(self.inactive)",
-                "len(self.inactive) == len(cs) and len(cs) == old(len(cs))",
-                "forall(lambda j: implies(0 <= j < len(cs), cs[j] is old(cs[j]) and self.inactive[j] is cs[j]))",
-                "own_inactive(self)",
+    "loops": {
+        "for v in vs": {"label": "_adj", "index": "_ka", "locals": {"v": "ref:Variable"},
+                        "modifies": ["Variable.cIn", "Variable.cOut", "list.len.ref~Constraint@cin", "list.len.ref~Constraint@cout"], "allocates": ["list"],
+                        "inv": [("prefix_has_lists", "forall(lambda i: implies(0 <= i < _ka, vs[i].cIn is not None and vs[i].cOut is not None))"),
+                                ("vs_same", _VS_SAME), ("cs_same", _CS_SAME)]},
+        "for c in cs": {"label": "_link", "index": "_kc", "locals": {"c": "ref:Constraint"},
+                        "modifies": ["list.len.ref~Constraint@cin", "list.elems.ref~Constraint@cin", "list.len.ref~Constraint@cout", "list.elems.ref~Constraint@cout", "Constraint.$ipos", "Constraint.$opos"],
+                        "inv": [("adj_ok", _ADJ_OK), ("prefix_linked", _LINKED % "_kc"), ("vs_same", _VS_SAME), ("cs_same", _CS_SAME)]},
+        "for c in self.inactive": {"label": "_deact", "index": "_kd", "locals": {"c": "ref:Constraint"},
+                                   "modifies": ["Constraint.active"],
+                                   "inv": [("prefix_inactive", "forall(lambda j: implies(0 <= j < _kd, not self.inactive[j].active))"),
+                                           ("only_own_touched", "forall(lambda c: implies(old(alloc(c)) and c.active != old(c.active), "
+                                                                "old(c.active) and 0 <= lastpos(c) < _kd and self.inactive[lastpos(c)] is c), 'ref:Constraint')"),
+                                           ("lists", "self.inactive is not None and self.inactive is not cs and len(self.inactive) == len(cs) and "
+                                                     "forall(lambda j: implies(0 <= j < len(cs), self.inactive[j] is cs[j]))"),
+                                           ("cs_same", _CS_SAME)]},
+    },
+    "ensures": [("lists_handed_over", "self.vs is vs and self.cs is cs and self.bs is None"),
+                ("inactive_is_a_fresh_list", "self.inactive is not None and self.inactive is not cs and fresh(self.inactive)"),
+                ("inactive_len", "len(self.inactive) == len(cs) and len(cs) == old(len(cs))"),
+                ("inactive_is_a_copy", "forall(lambda j: implies(0 <= j < len(cs), cs[j] is old(cs[j]) and self.inactive[j] is cs[j]))"),
+                ("own_inactive", "own_inactive(self)"),
                 # constraints of other solvers keep their state
-                "forall(lambda c: implies(old(alloc(c)) and c.active, old(c.active)), 'ref:Constraint')",
-                "forall(lambda c: implies(old(alloc(c)) and old(c.active) and not c.active, exists(lambda j: 0 <= j < len(cs) and cs[j] is c)), 'ref:Constraint')"],
+                ("nothing_activated", "forall(lambda c: implies(old(alloc(c)) and c.active, old(c.active)), 'ref:Constraint')"),
+                ("only_own_deactivated", "forall(lambda c: implies(old(alloc(c)) and old(c.active) and not c.active, 0 <= lastpos(c) < len(cs) and cs[lastpos(c)] is c), 'ref:Constraint')"),
+                ("adjacency_lists_exist", _ADJ_OK),
+                # what the recursive routines walk: every constraint is reachable from both of its ends
+                ("adjacency_complete", _LINKED % "len(cs)")],
 }
